@@ -83,12 +83,27 @@ def load(pe, req):
     if tr == "dict":
         return pe.input.json.load_json_dict(path, verbose=False, gz=req["gz"])
     if tr == "csv":
-        return frame_plain(pe, pe.input.pandas.load_df(path, gz=req["gz"]))
+        return frame_plain(pe, pe.input.pandas.load_df(path, gz=req["gz"], auto_gamma=bool(req.get("auto_gamma"))))
     if tr == "sql":
-        return frame_plain(pe, pe.input.pandas.read_sql("SELECT * from %s" % req["table"], path))
+        return frame_plain(pe, pe.input.pandas.read_sql("SELECT * from %s" % req["table"], path, auto_gamma=bool(req.get("auto_gamma"))))
     if tr in ("pickle", "obs_pickle"):
         return pe.load_object(path)
     raise ValueError(tr)
+
+
+def frame_analysable(pe, df):
+    """auto_gamma is only asked for when the default analysis exists for every cell (e.g. replicas without a common
+    spacing cannot be analysed at all - asking for it then is a caller error)"""
+    import copy
+    try:
+        for c in df.columns:
+            for x in df[c]:
+                for o in (x if isinstance(x, list) else [x]):
+                    if isinstance(o, (pe.Obs, pe.Corr)):
+                        copy.deepcopy(o).gm()
+    except Exception:
+        return False
+    return True
 
 
 def frame_plain(pe, df):
@@ -377,7 +392,7 @@ def do_export(ctx, pe, pd, op, plan, structs, d, clock, faults, files, sql_model
         if prevm is not None and op["if_exists"] == "append":
             if prevm["columns"] != exp["columns"]:
                 return
-            exp = {"columns": exp["columns"], "rows": prevm["rows"] + exp["rows"]}
+            exp = {"columns": exp["columns"], "rows": prevm["rows"] + exp["rows"], "analysable": prevm.get("analysable", False) and frame_analysable(pe, obj)}
             hist = "append"
             ctx.probe("sqlite_append")
             if len(exp["rows"]) > len(prevm["rows"]) + op["rows"] - 1 and prevm.get("appended"):
@@ -385,8 +400,13 @@ def do_export(ctx, pe, pd, op, plan, structs, d, clock, faults, files, sql_model
             exp["appended"] = True
         elif prevm is not None:
             hist = "replace"
+        if "analysable" not in exp:
+            exp["analysable"] = frame_analysable(pe, obj)
         sql_model[tkey] = exp
-        m = {"transport": "sql", "path": fname, "gz": op["gz"], "table": op["table"], "expect": exp, "durable": True, "frame": True, "objs": None, "comp": comp, "disc": disc}
+        m = {"transport": "sql", "path": fname, "gz": op["gz"], "table": op["table"], "expect": exp, "durable": True, "frame": True, "objs": None, "comp": comp, "disc": disc,
+             "auto_gamma": op["rows"] % 2 == 0 and exp["analysable"]}
+        if m["auto_gamma"]:
+            ctx.probe("frame_loaded_with_auto_gamma")
         verify(ctx, pe, partner, m, op["where"], hist)
         ctx.sig(comp, disc, hist, op["where"])
         return
@@ -473,7 +493,7 @@ def do_export(ctx, pe, pd, op, plan, structs, d, clock, faults, files, sql_model
         else:
             ctx.probe("export_raised_on_write_fault")
         # whatever is on disk now: rejected on import, or (only if complete) equal; never something else
-        m = {"transport": tr, "path": path, "gz": gzf, "expect": exp, "durable": False, "frame": tr == "csv", "objs": None, "comp": comp, "disc": disc}
+        m = {"transport": tr, "path": path, "gz": gzf, "expect": exp, "durable": False, "frame": tr == "csv", "objs": None, "comp": comp, "disc": disc, "auto_gamma": tr == "csv" and op["rows"] % 2 == 0 and frame_analysable(pe, obj)}
         if os.path.exists(path):
             try:
                 got = load(pe, m)
@@ -495,7 +515,7 @@ def do_export(ctx, pe, pd, op, plan, structs, d, clock, faults, files, sql_model
         hist = "overwrite_after_fault" if prev.get("after_fault") else "overwrite"
         if prev.get("size", 0) > os.path.getsize(path):
             ctx.probe("overwrite_shorter_over_longer")
-    m = {"transport": tr, "path": path, "gz": gzf, "expect": exp, "durable": True, "frame": tr == "csv", "objs": obj, "size": os.path.getsize(path), "comp": comp, "disc": disc}
+    m = {"transport": tr, "path": path, "gz": gzf, "expect": exp, "durable": True, "frame": tr == "csv", "objs": obj, "size": os.path.getsize(path), "comp": comp, "disc": disc, "auto_gamma": tr == "csv" and op["rows"] % 2 == 0 and frame_analysable(pe, obj)}
     files[key] = m
     # schema of the document on disk
     def read_text():
@@ -583,7 +603,7 @@ def verify(ctx, pe, partner, m, where, hist):
     comp, disc = m["comp"], m["disc"]
     ctx.compared += 1
     if where == "partner":
-        r = partner.call({k: m[k] for k in ("transport", "path", "gz") if k in m} | ({"table": m["table"]} if "table" in m else {}))
+        r = partner.call({k: m[k] for k in ("transport", "path", "gz", "auto_gamma") if k in m} | ({"table": m["table"]} if "table" in m else {}))
         if r[0] != "ok":
             ctx.violation("c11.no_result", comp, "partner", "import in another interpreter raised %s: %s" % (r[1], r[2]))
             return
